@@ -107,6 +107,14 @@ def recipes(tier='quick'):
     S2 = odl.ScalingOperator(odl.rn(2), 3.0) + odl.rn(2).element([1, -1])
     add('ProductSpaceOperator', {'blocks': 'nonlinear'},
         lambda: (odl.ProductSpaceOperator([[P2, S2], [None, P2]]), [1.5, -0.75, 2.25, 0.5], [0.5, 1, -1.5, 2]))
+    P3 = odl.PowerOperator(odl.rn(2), 3)
+    SIN = odl.ufunc_ops.sin(odl.rn(2))
+    add('ProductSpaceOperator', {'blocks': 'nonlinear-offdiagonal'},
+        lambda: (odl.ProductSpaceOperator([[odl.IdentityOperator(odl.rn(2)), P3], [SIN, P3]]), [1.5, -0.75, 2.25, 0.5], [0.5, 1, -1.5, 2]))
+    add('ProductSpaceOperator', {'blocks': 'nonlinear-column'},
+        lambda: (odl.ProductSpaceOperator([[P3], [SIN]]), [1.5, -0.75], [0.5, 1]))
+    add('ProductSpaceOperator', {'blocks': 'nonlinear-row'},
+        lambda: (odl.ProductSpaceOperator([[P3, SIN]]), [1.5, -0.75, 2.25, 0.5], [0.5, 1, -1.5, 2]))
     add('BroadcastOperator', {'parts': 'nonlinear'}, lambda: (odl.BroadcastOperator(P2, S2), [1.5, -0.75], [0.5, 1]))
     add('ReductionOperator', {'parts': 'nonlinear'},
         lambda: (odl.ReductionOperator(P2, S2), [1.5, -0.75, 2.25, 0.5], [0.5, 1, -1.5, 2]))
